@@ -140,6 +140,9 @@ def evaluate(ck, recs, tag="calls", count=True):
             if count:
                 ck.count()
                 ck.nontrivial(shape(r))
+            pad = r["plan"]["attempts"][max(1, r["attempts"]) - 1].get("pad", 0) if r["plan"]["attempts"] else 0
+            if r["class"] == "ok" and pad and r.get("pay_len", 0) < pad:
+                code = max(code, 2)  # truncated payload
             if code != 0 or r.get("panic"):
                 bad.append((r, code))
     batches = [r for r in recs if r["k"] == "batch"]
@@ -149,6 +152,42 @@ def evaluate(ck, recs, tag="calls", count=True):
             ck.count()
             ck.nontrivial(("batch", b["kind"], b["calls"]))
     return bad, badb
+
+
+SHUT = {"ok": 0, "err": 1, "neither": 2, "panic": 3, "hang": 4}
+
+
+def evaluate_shutdown(ck, recs, tag="shutdown", count=True):
+    rs = [r for r in recs if r["k"] == "shutdown"]
+    usable = [r for r in rs if not r.get("setup")]
+    for r in rs:
+        if r.get("setup"):
+            ck.notes.append("shutdown scenario could not be set up: " + r["setup"])
+    terms = ["([%s], %s, %s, %d)" % ("; ".join(str(SHUT.get(c["class"], 4)) for c in r["calls"]), cbool(r["stop_hang"] or bool(r.get("panic"))),
+                                     cbool(r["pending"] < 0), max(0, r["pending"])) for r in usable]
+    res = ck.coq_eval(IMPORTS, "shut_case", "check_shutdown", terms, shard=16, tag=tag)
+    out = []
+    if res is not None:
+        for r, code in zip(usable, res):
+            if count:
+                ck.count(len(r["calls"]))
+                ck.nontrivial(("shutdown", r["scenario"], tuple(sorted(set(c["class"] for c in r["calls"])))))
+            if code != 0:
+                out.append((r, code))
+    return out
+
+
+def report_shutdown(ck, bad):
+    for r, code in bad:
+        spec_bad = code >= 2
+        worst = [c for c in r["calls"] if c["class"] not in ("ok", "err")]
+        what = ("Connection.Stop() with requests in flight (%s): %s; calls=%s stop_hang=%s pending=%d" % (
+            r["scenario"], "a request ended with neither a response nor an error / panicked / hung" if spec_bad
+            else "differs from the proved model", json.dumps(worst[:2] or r["calls"][:2]), r["stop_hang"], r["pending"]))
+        f = dict(kind="schedule", key="c17:shutdown:%s:%s" % ("spec" if spec_bad else "model", r["scenario"]), what=what, case=r,
+                 theorem_or_correspondence="Corr.C17.check_shutdown vs Connection.RequestFrom/Stop on loopback hosts")
+        f["spec_violated"] = spec_bad
+        ck.failures.append(f)
 
 
 def report(ck, bad, badb):
@@ -181,6 +220,7 @@ def confirm(ck, binp, recs, bad, badb, rounds=2):
     """Timing-dependent observations are confirmed by re-running the affected plans in isolation (up to `rounds` times):
     only what deviates again every time is reported. A blocked layer is reported at once."""
     n0, b0 = len(bad), len(badb)
+    kinds0 = sorted(set("%s/%s/%s" % (r.get("bkind", "?"), "strict" if r["plan"]["strict"] else "race", r["class"]) for r, _ in bad))
     for k in range(rounds):
         if not bad and not badb:
             break
@@ -200,8 +240,8 @@ def confirm(ck, binp, recs, bad, badb, rounds=2):
         recs = again
         bad, badb = evaluate(ck, again, tag="confirm%d" % k, count=False)
     if n0 or b0:
-        ck.notes.append("%d call(s)/%d batch(es) off the oracle or model in the main run were re-run in isolation: %d/%d reproduced" % (
-            n0, b0, len(bad), len(badb)))
+        ck.notes.append("%d call(s) %s/%d batch(es) off the oracle or model in the main run were re-run in isolation: %d/%d reproduced" % (
+            n0, kinds0, b0, len(bad), len(badb)))
     return bad, badb
 
 
@@ -220,7 +260,7 @@ def run(ck):
         bad, badb = confirm(ck, binp, recs, bad, badb)
         report(ck, bad, badb)
     if ck.tier == "quick":
-        args = ["-det", "40", "-rounds", "2", "-race", "20", "-racecalls", "16", "-held", "3", "-deadline", "8", "-cancelrace", "6"]
+        args = ["-det", "40", "-rounds", "2", "-race", "20", "-racecalls", "16", "-held", "3", "-deadline", "6", "-cancelrace", "4"]
     else:
         args = ["-det", "80", "-rounds", "6", "-race", "200", "-racecalls", "24", "-held", "12", "-deadline", "60", "-dlcalls", "96",
                 "-cancelrace", "40"]
@@ -230,6 +270,14 @@ def run(ck):
     bad, badb = evaluate(ck, recs)
     bad, badb = confirm(ck, binp, recs, bad, badb)
     report(ck, bad, badb)
+    sbad = evaluate_shutdown(ck, recs)
+    if sbad and not any(c["class"] in ("panic", "neither") for r, _ in sbad for c in r["calls"]):
+        # a slow shutdown can be a timing artefact; a request that ends with neither response nor error is not
+        again = ck.run_harness(binp, ["-det", "0", "-rounds", "0", "-race", "0", "-held", "0", "-deadline", "0", "-cancelrace", "0",
+                                      "-large=false"], out_name="confirm_shutdown.jsonl")
+        if again is not None:
+            sbad = evaluate_shutdown(ck, again, tag="shutdown_confirm", count=False)
+    report_shutdown(ck, sbad)
     calls = [r for r in recs if r["k"] == "call"]
     for r in calls[:1] + [x for x in calls if x["class"] == "timeout"][:1] + [x for x in calls if not x["plan"]["strict"]][:1] + \
             [x for x in recs if x["k"] == "batch"][:1]:
